@@ -206,6 +206,9 @@ Proof.
   split; [|split].
   - intros Hno fuel. apply cumulative_no_effect. exact Hno.
   - intros bs fuel fuel' T1 T2 F1 F2.
-    apply (cumulative_same_tiling inp lenient U64MAX' _ _ Hms Hms64 H1 H2 eq_refl bs fuel fuel' T1 T2 F1 F2).
-  - intros fuel T. apply (sanitize_untiled inp lenient U64MAX' _ Hms Hms64 H1 fuel T).
+    apply (cumulative_same_tiling inp lenient U64MAX'
+             {| max_metadata_size := mx; cumulative_mdat_box_size := c1 |}
+             {| max_metadata_size := mx; cumulative_mdat_box_size := c2 |} Hms Hms64 H1 H2 eq_refl bs fuel fuel' T1 T2 F1 F2).
+  - intros fuel T.
+    apply (sanitize_untiled inp lenient U64MAX' {| max_metadata_size := mx; cumulative_mdat_box_size := c1 |} Hms Hms64 H1 fuel T).
 Qed.
